@@ -4,6 +4,7 @@ import (
 	"cmp"
 	"fmt"
 	"log/slog"
+	"math"
 
 	"github.com/AdguardTeam/AdGuardDNS/internal/connlimiter"
 	"github.com/AdguardTeam/AdGuardDNS/internal/dnsserver/ratelimit"
@@ -84,6 +85,17 @@ var _ validator = (*rateLimitOptions)(nil)
 func (o *rateLimitOptions) validate() (err error) {
 	if o == nil {
 		return errors.ErrNoValue
+	}
+
+	// The limiter keeps count+1 timestamps per client subnet, so the count must
+	// at least be usable as a slice length.
+	if o.Count > math.MaxInt32 {
+		return fmt.Errorf(
+			"count: %w: must be less than or equal to %d, got %d",
+			errors.ErrOutOfRange,
+			math.MaxInt32,
+			o.Count,
+		)
 	}
 
 	return cmp.Or(
